@@ -19,7 +19,47 @@ structure DCfg where
   thrDen : Nat := 100
   ignorePrivate : Bool := true
   reportRepetition : Bool := false
+  exclude : List String := []          -- exclude_paths (already in `root…` form)
+  excludePrefix : List String := []    -- exclude_regex_paths of the anchored form  ^<escaped path>(\[|$)
+  incl : List String := []             -- include_paths
 deriving Repr
+
+/-- `needle in hay` for strings -/
+def isSubstr (needle hay : String) : Bool :=
+  let n := needle.toList
+  let rec go : List Char → Bool
+    | [] => n.isEmpty
+    | c :: cs => (n.isPrefixOf (c :: cs)) || go cs
+  go hay.toList
+
+/-- `_skip_this(level)` for the path-based options (`level.path()` is `none` for set members) -/
+def skipPath (cfg : DCfg) (lp : Option String) : Bool :=
+  let p := lp.getD "None"
+  let s0 := !cfg.exclude.isEmpty && lp.isSome && cfg.exclude.contains p
+  if !cfg.incl.isEmpty && p != "root" then
+    if lp.isSome && cfg.incl.contains p then s0
+    else !(cfg.incl.any (fun pre => isSubstr pre p || isSubstr p pre))
+  else if !cfg.excludePrefix.isEmpty && cfg.excludePrefix.any (fun pre => p == pre || p.startsWith (pre ++ "[")) then true
+  else s0
+
+def skipSteps (cfg : DCfg) (steps : List Step) : Bool := skipPath cfg (pathStr steps false)
+
+/-- `_skip_this_key(level, key)` (only consulted when include_paths is given) -/
+def skipKey (cfg : DCfg) (steps : List Step) (key : PyVal) : Bool :=
+  if cfg.incl.isEmpty then false
+  else
+    let lp := (pathStr steps false).getD "None"
+    let keyTxt : String := match key with
+      | .str s => s | .int i => toString i | .float n sc => floatRepr n sc | .none => "None"
+      | .bool b => if b then "True" else "False" | _ => "?"
+    let kp := lp ++ "['" ++ keyTxt ++ "']"
+    if cfg.incl.contains kp then false
+    else if cfg.incl.contains lp then false
+    else if cfg.incl.any (fun pre => isSubstr kp pre) then false
+    else
+      -- a higher level included as a whole
+      let ups := (List.range steps.length).map (fun n => (pathStr (steps.take n) false).getD "None")
+      !(ups.any (fun u => cfg.incl.contains u))
 
 /-- `isinstance(item, basic_types)` within the universe -/
 def isBasic : PyVal → Bool
@@ -60,8 +100,11 @@ def leafDiff (steps : List Step) (a b : PyVal) : Tree :=
   | .none, .none => []
   | a, b => if numEq a b then [] else [(.valuesChanged, { steps := steps, t1 := some a, t2 := some b })]
 
-def keysOf (cfg : DCfg) (kvs : List (PyVal × PyVal)) : List PyVal :=
-  (kvs.map (·.1)).filter (fun k => !(cfg.ignorePrivate && isPrivate k))
+def keysOf (cfg : DCfg) (steps : List Step) (kvs : List (PyVal × PyVal)) : List PyVal :=
+  (kvs.map (·.1)).filter (fun k => !(cfg.ignorePrivate && isPrivate k) && !skipKey cfg steps k)
+
+/-- entries that `_report_result` lets through -/
+def keepReported (cfg : DCfg) (t : Tree) : Tree := t.filter (fun e => !skipSteps cfg e.2.steps)
 
 /-- `len(intersect) / union_len < threshold` with `union_len > 1`, threshold non-zero -/
 def belowThreshold (cfg : DCfg) (inter union : Nat) : Bool :=
@@ -107,9 +150,9 @@ path does not apply -/
 def iterInOrder (cfg : DCfg) (al : Align) (steps : List Step) (xs ys : List PyVal) (pairwise : Unit → Result) : Result :=
   if !cfg.zip && xs.all isBasic && ys.all isBasic then
     let ops := al xs ys
-    let pass1 := opcodeEntries steps xs ys ops
+    let pass1 := keepReported cfg (opcodeEntries steps xs ys ops)
     if pass1.length > 1 then
-      let pass2 := pairBasic steps 0 0 xs ys
+      let pass2 := keepReported cfg (pairBasic steps 0 0 xs ys)
       if pass1.length ≥ pass2.length then ⟨pass2, []⟩ else ⟨pass1, [(steps, ops)]⟩
     else ⟨pass1, []⟩
   else pairwise ()
@@ -129,12 +172,15 @@ def diffV (cfg : DCfg) (al : Align) (hashOf : PyVal → String) (steps : List St
   | .dict kvs1, b =>
     match b with
     | .dict kvs2 =>
-      let k1 := keysOf cfg kvs1
-      let k2 := keysOf cfg kvs2
+      let k1 := keysOf cfg steps kvs1
+      let k2 := keysOf cfg steps kvs2
       let inter := k2.filter (fun k => k1.any (fun k' => keyEq k' k))
       let added := k2.filter (fun k => !k1.any (fun k' => keyEq k' k))
       let removed := k1.filter (fun k => !k2.any (fun k' => keyEq k' k))
-      if belowThreshold cfg inter.length (k1.length + k2.length - inter.length) then
+      let unionKeys := k2 ++ removed
+      let unionLen := if cfg.exclude.isEmpty then unionKeys.length
+        else (unionKeys.filter (fun k => !cfg.exclude.contains ((pathStr (steps ++ [⟨.dict, some k, some k⟩]) false).getD "None"))).length
+      if belowThreshold cfg inter.length unionLen then
         ⟨[(.valuesChanged, { steps := steps, t1 := some (.dict kvs1), t2 := some b })], []⟩
       else
         let addedE : Tree := added.map (fun k => (Cat.dictAdded, addedLevel steps .dict k ((dictGet kvs2 k).getD .none)))
@@ -176,7 +222,9 @@ def diffKVs (cfg : DCfg) (al : Align) (hashOf : PyVal → String) (steps : List 
     else match k2s.find? (fun k => keyEq k1 k) with
       | some k =>
         match dictGet kvs2 k with
-        | some v2 => (k, diffV cfg al hashOf (steps ++ [⟨.dict, some k, some k⟩]) v1 v2) :: tail
+        | some v2 =>
+          let st := steps ++ [⟨.dict, some k, some k⟩]
+          (k, if skipSteps cfg st then {} else diffV cfg al hashOf st v1 v2) :: tail
         | Option.none => tail
       | Option.none => tail
 /-- the pairwise pass over whole iterables (`t1_from_index is None`): same index on both sides -/
@@ -188,7 +236,8 @@ def diffPairs (cfg : DCfg) (al : Align) (hashOf : PyVal → String) (steps : Lis
   | [], y :: ys =>
     ⟨(.iterAdded, addedLevel steps .iter (.int i) y) :: ((ys.zipIdx).map fun (y', k) => (Cat.iterAdded, addedLevel steps .iter (.int (i + 1 + k)) y')), []⟩
   | x :: xs, y :: ys =>
-    diffV cfg al hashOf (steps ++ [⟨.iter, some (.int i), some (.int i)⟩]) x y ++ diffPairs cfg al hashOf steps (i + 1) xs ys
+    (if skipSteps cfg (steps ++ [⟨.iter, some (.int i), some (.int i)⟩]) then {}
+     else diffV cfg al hashOf (steps ++ [⟨.iter, some (.int i), some (.int i)⟩]) x y) ++ diffPairs cfg al hashOf steps (i + 1) xs ys
 end
 
 /-- `TreeResult.mutual_add_removes_to_become_value_changes` (run when `report_repetition` is off):
@@ -209,7 +258,8 @@ def mutualAddRemoves (t : Tree) : Tree :=
 
 /-- `DeepDiff(t1, t2, ...)` up to the tree -/
 def deepDiff (cfg : DCfg) (al : Align) (hashOf : PyVal → String) (t1 t2 : PyVal) : Result :=
-  let r := diffV cfg al hashOf [] t1 t2
+  let r := if skipSteps cfg [] then {} else diffV cfg al hashOf [] t1 t2
+  let r := { r with tree := keepReported cfg r.tree }
   if cfg.reportRepetition then r else { r with tree := mutualAddRemoves r.tree }
 
 end Diff
